@@ -179,6 +179,7 @@ class Frame:
         self.fi = fi
         self.parent = parent  # lexical parent frame (closures)
         self.vars = {}
+        self.views = {}   # name -> (parent name, basic index): live views `v = a[idx]` through which stores reach `a`
         self.cls_ctx = cls_ctx
         self.self_obj = None
 
@@ -809,6 +810,16 @@ class Evaluator:
         v = self.eval(st.value, fr)
         for t in st.targets:
             self.assign(t, v, fr)
+        # live views: `name = parent[basic index]` (numpy basic indexing returns a view, writes through it reach the parent)
+        if len(st.targets) == 1 and isinstance(st.targets[0], ast.Name) and isinstance(st.value, ast.Subscript) and isinstance(st.value.value, ast.Name) \
+                and st.value.value.id in fr.vars and st.value.value.id != st.targets[0].id and isinstance(fr.vars[st.value.value.id], V) \
+                and not isinstance(fr.vars[st.value.value.id], (Tup, Const)):
+            try:
+                vidx = self.eval_index(st.value.slice, fr)
+            except Exception:  # noqa: BLE001
+                vidx = None
+            if vidx is not None and isinstance(vidx, V) and is_basic_index(vidx):
+                fr.views[st.targets[0].id] = (st.value.value.id, vidx)
 
     def st_AnnAssign(self, st, fr):
         if st.value is not None:
@@ -1097,6 +1108,10 @@ class Evaluator:
     # ------------------------------------------------------------------ assignment
     def assign(self, t, v, fr, aug=False):
         if isinstance(t, ast.Name):
+            if fr.views and not aug:
+                fr.views.pop(t.id, None)
+                for k in [k for k, (p_, _i) in fr.views.items() if p_ == t.id]:
+                    del fr.views[k]
             fr.vars[t.id] = v
         elif isinstance(t, (ast.Tuple, ast.List)):
             items = self.unpack(v, len(t.elts), t)
@@ -1125,6 +1140,21 @@ class Evaluator:
         raise AnalysisError("cannot unpack %r" % (v,))
 
     def store(self, t, base, idx, v, fr):
+        if isinstance(getattr(t, "value", None), ast.Name) and t.value.id in fr.views and isinstance(base, V):
+            # a store through a live view is a store into the parent at the composed index; the view is re-derived from the parent
+            pname, vidx = fr.views[t.value.id]
+            comp = compose_index(vidx, idx)
+            if comp is None:
+                # not composable (e.g. the store addresses dimensions under the view's Ellipsis): the parent is written at an unknown place
+                comp = App("view_index", (vidx, idx if isinstance(idx, V) else Sym(key_of(idx))))
+            pnode = ast.Subscript(value=ast.Name(id=pname, ctx=ast.Load()), slice=t.slice, ctx=ast.Store())
+            ast.copy_location(pnode, t)
+            ast.fix_missing_locations(pnode)
+            saved = dict(fr.views)
+            self.store(pnode, fr.lookup(pname), comp, v, fr)
+            fr.views = saved
+            fr.vars[t.value.id] = self.lib.getitem(self, fr.lookup(pname), vidx, t)
+            return
         if isinstance(base, ObjDictView):
             if isinstance(idx, Const) and isinstance(idx.value, str):
                 self.event("attr_store", obj=base.obj, attr=idx.value, value=v, in_init=base.obj.in_init > 0, node=t, empty=_is_empty_container(v))
@@ -1612,6 +1642,48 @@ class Evaluator:
 # --------------------------------------------------------------------------- helpers
 
 VIEW_OPS = {"asarray", "reshape", "moveaxis", "squeeze", "transpose", "expand_dims", "view", "ravel", "values"}
+
+
+def _full_slice(i):
+    return isinstance(i, App) and i.fn == "slice" and all(a == Const(None) for a in i.args)
+
+
+def compose_index(vidx, idx):
+    """Index into the parent that addresses element `idx` of the view parent[vidx] (basic indices; None when not derivable)."""
+    vi = list(vidx.items) if isinstance(vidx, Tup) else [vidx]
+    ii = list(idx.items) if isinstance(idx, Tup) else [idx]
+    if any(isinstance(x, Star) for x in vi + ii) or not is_basic_index(Tup(ii)):
+        return None
+    ell = Const(Ellipsis)
+    if any(isinstance(x, App) and x.fn == "slice" and not _full_slice(x) for x in vi):
+        return None  # partial slices shift positions
+    if any(x == Const(None) for x in vi + ii):
+        return None
+    if vi and vi[0] == ell and ell not in vi[1:]:
+        tail = vi[1:]
+        kept = [k for k, x in enumerate(tail) if _full_slice(x)]
+        if ii and ii[0] == ell and ell not in ii[1:]:
+            b = ii[1:]
+            if len(b) > len(kept):
+                return None
+            for k, bi in zip(reversed(kept), reversed(b)):
+                tail[k] = bi
+            return Tup([ell] + tail)
+        return None
+    if ell not in vi:
+        kept = [k for k, x in enumerate(vi) if _full_slice(x)]
+        if ell in ii:
+            return None
+        out = list(vi)
+        extra = []
+        for n_, bi in enumerate(ii):
+            if n_ < len(kept):
+                out[kept[n_]] = bi
+            else:
+                extra.append(bi)
+        res = out + extra
+        return Tup(res) if len(res) != 1 else res[0]
+    return None
 
 
 def is_basic_index(idx):
